@@ -2,6 +2,7 @@ package main
 
 import (
 	"fmt"
+	"go/ast"
 	"go/token"
 	"go/types"
 	"sort"
@@ -483,4 +484,223 @@ func RunSkipExit(w *World, r *Report, br *boundsRun, fns []*ssa.Function) {
 			}
 		}
 	}
+}
+
+// RunFormatField: every GSUB/GPOS subtable begins with its 16-bit format
+// number, which is what the reader dispatches on.  The encoders are methods
+// of types named after lookup type and format (Gsub3_1, SeqContext2,
+// ChainedSeqContext3 …); the first two bytes an encode method produces must
+// be (0, F) with F the format in the type's name.  The bytes are found in
+// the two ways the encoders build their buffer: the first append to a buffer
+// made with length 0 (or a returned byte literal), or constant-index stores
+// into a buffer made with its final length (an index that is not stored
+// stays 0).
+func RunFormatField(w *World, r *Report) {
+	r.Rule("formatfield: the first two bytes produced by the encode method of every subtable type of package gtab whose name ends in a format digit are 0 and that digit (first append to an empty buffer, returned byte literal, or constant-index stores into a buffer of final length)")
+	pkg := w.All[modPath+"/opentype/gtab"]
+	if pkg == nil {
+		r.Fatal("package gtab not loaded")
+		return
+	}
+	info := pkg.TypesInfo
+	n := 0
+	for _, f := range pkg.Syntax {
+		for _, d := range f.Decls {
+			fd, ok := d.(*ast.FuncDecl)
+			if !ok || fd.Recv == nil || fd.Body == nil || fd.Name.Name != "encode" {
+				continue
+			}
+			rt := fd.Recv.List[0].Type
+			if st, ok := rt.(*ast.StarExpr); ok {
+				rt = st.X
+			}
+			tn := types.ExprString(rt)
+			if len(tn) < 2 || tn[len(tn)-1] < '1' || tn[len(tn)-1] > '9' {
+				continue
+			}
+			want := int64(tn[len(tn)-1] - '0')
+			if fd.Type.Results == nil || len(fd.Type.Results.List) != 1 || !isByteSlice(info.TypeOf(fd.Type.Results.List[0].Type)) {
+				continue
+			}
+			if isPanicOnly(fd.Body) {
+				continue // a "not implemented" stub (reported by reencode under C02)
+			}
+			n++
+			key := r.MkKey("formatfield", "opentype/gtab."+tn, "format number written by encode")
+			b0, b1, how, ok := firstTwoBytes(info, fd)
+			switch {
+			case !ok:
+				r.Fail("formatfield", key, w.Pos(fd.Pos()), "the first two bytes that encode produces could not be determined ("+how+")", nil)
+			case b0 == 0 && b1 == want:
+				r.OK("formatfield", key, w.Pos(fd.Pos()), fmt.Sprintf("format %d, %s", want, how))
+			default:
+				r.Fail("formatfield", key, w.Pos(fd.Pos()), fmt.Sprintf("the subtable begins with the bytes %d, %d but the type is format %d: the reader dispatches on this number, so the subtable is read back as another format or rejected", b0, b1, want), nil)
+			}
+		}
+	}
+	if n < 15 {
+		r.Fatal("formatfield: only %d encode methods of format-numbered subtable types found", n)
+	}
+	r.Floor("formatfield", 15)
+}
+
+func firstTwoBytes(info *types.Info, fd *ast.FuncDecl) (int64, int64, string, bool) {
+	constOf := func(e ast.Expr) (int64, bool) { return constInt(info, e) }
+	var bufObj types.Object
+	fullLen := false
+	for _, st := range fd.Body.List {
+		switch x := st.(type) {
+		case *ast.ReturnStmt:
+			if bufObj == nil && len(x.Results) == 1 {
+				if cl, ok := x.Results[0].(*ast.CompositeLit); ok && len(cl.Elts) >= 2 {
+					a, ok1 := constOf(cl.Elts[0])
+					b, ok2 := constOf(cl.Elts[1])
+					return a, b, "returned literal", ok1 && ok2
+				}
+			}
+		case *ast.AssignStmt:
+			if len(x.Lhs) != 1 || len(x.Rhs) != 1 {
+				continue
+			}
+			id, isID := x.Lhs[0].(*ast.Ident)
+			call, isCall := x.Rhs[0].(*ast.CallExpr)
+			if bufObj == nil && isID && x.Tok == token.DEFINE {
+				if cl, ok := x.Rhs[0].(*ast.CompositeLit); ok && isByteSlice(info.TypeOf(cl)) && len(cl.Elts) >= 2 {
+					a, ok1 := constOf(cl.Elts[0])
+					b, ok2 := constOf(cl.Elts[1])
+					return a, b, "byte literal", ok1 && ok2
+				}
+				if isCall {
+					if fid, ok := call.Fun.(*ast.Ident); ok && fid.Name == "make" && len(call.Args) >= 2 && isByteSlice(info.TypeOf(call.Args[0])) {
+						bufObj = info.ObjectOf(id)
+						if len(call.Args) == 2 {
+							fullLen = true
+						} else if l, ok := constOf(call.Args[1]); !ok || l != 0 {
+							fullLen = true
+						}
+						continue
+					}
+				}
+			}
+			if bufObj == nil {
+				continue
+			}
+			// first append to the empty buffer
+			if !fullLen && isID && info.ObjectOf(id) == bufObj && isCall {
+				if fid, ok := call.Fun.(*ast.Ident); ok && fid.Name == "append" && len(call.Args) >= 3 && call.Ellipsis == token.NoPos {
+					a, ok1 := constOf(call.Args[1])
+					b, ok2 := constOf(call.Args[2])
+					return a, b, "first append", ok1 && ok2
+				}
+				return 0, 0, "the first append to the buffer does not begin with two constants", false
+			}
+		}
+	}
+	if bufObj != nil && fullLen {
+		// constant-index stores at 0 and 1 anywhere in the top-level list; absent = 0
+		var v [2]int64
+		var dyn [2]bool
+		for _, st := range fd.Body.List {
+			as, ok := st.(*ast.AssignStmt)
+			if !ok || len(as.Lhs) != 1 || len(as.Rhs) != 1 {
+				continue
+			}
+			ix, ok := as.Lhs[0].(*ast.IndexExpr)
+			if !ok {
+				continue
+			}
+			if bid, ok := ix.X.(*ast.Ident); !ok || info.ObjectOf(bid) != bufObj {
+				continue
+			}
+			k, ok := constOf(ix.Index)
+			if !ok || k < 0 || k > 1 {
+				continue
+			}
+			if c, ok := constOf(as.Rhs[0]); ok {
+				v[k] = c
+			} else {
+				dyn[k] = true
+			}
+		}
+		if dyn[0] || dyn[1] {
+			return 0, 0, "a non-constant value is stored at offset 0 or 1", false
+		}
+		return v[0], v[1], "stores into a buffer of final length", true
+	}
+	return 0, 0, "no buffer construction recognised", false
+}
+
+// RunExtType: a lookup list that does not fit 16-bit offsets wraps its
+// subtables in extension subtables, whose lookup type is 7 in a GSUB table
+// and 9 in a GPOS table.  In LookupList.encode the variable holding that
+// type receives the constant 7 on a path through type tests for GSUB subtable
+// types and the constant 9 on a path through GPOS subtable types.
+func RunExtType(w *World, r *Report) {
+	r.Rule("exttype: in (LookupList).encode the extension lookup type is the constant 7 on a path that tested a subtable for a GSUB subtable type and the constant 9 on a path that tested it for a GPOS subtable type (both assignments exist, neither is exchanged)")
+	fn := w.Func("(opentype/gtab.LookupList).encode")
+	if fn == nil {
+		r.Fatal("(opentype/gtab.LookupList).encode does not resolve")
+		return
+	}
+	key := r.MkKey("exttype", fnName(fn), "extension lookup type")
+	// for each constant 7 / 9 of type uint16 flowing into a phi: which type tests guard the edge?
+	got := map[int64]string{}
+	for _, b := range fn.Blocks {
+		for _, in := range b.Instrs {
+			ph, ok := in.(*ssa.Phi)
+			if !ok {
+				continue
+			}
+			bt, ok := ph.Type().Underlying().(*types.Basic)
+			if !ok || bt.Kind() != types.Uint16 {
+				continue
+			}
+			for i, e := range ph.Edges {
+				c, isC := bconstInt(e)
+				if !isC || (c != 7 && c != 9) {
+					continue
+				}
+				// type tests on the way to the predecessor
+				fam := ""
+				for d := b.Preds[i]; d != nil; d = d.Idom() {
+					for _, di := range d.Instrs {
+						if ta, ok := di.(*ssa.TypeAssert); ok && ta.CommaOk {
+							s := ta.AssertedType.String()
+							switch {
+							case strings.Contains(s, "gtab.Gsub"):
+								if fam == "" {
+									fam = "GSUB"
+								}
+							case strings.Contains(s, "gtab.Gpos"):
+								if fam == "" {
+									fam = "GPOS"
+								}
+							}
+						}
+					}
+					if fam != "" {
+						break
+					}
+				}
+				got[c] = fam
+			}
+		}
+	}
+	var problems []string
+	if f, ok := got[7]; !ok {
+		problems = append(problems, "the extension type 7 (GSUB) is never assigned: a GSUB table that needs extension subtables is written with the wrong lookup type")
+	} else if f != "GSUB" {
+		problems = append(problems, "the extension type 7 is assigned on a path that tested for "+f+" subtable types")
+	}
+	if f, ok := got[9]; !ok {
+		problems = append(problems, "the extension type 9 (GPOS) is never assigned: a GPOS table that needs extension subtables is written with the wrong lookup type")
+	} else if f != "GPOS" {
+		problems = append(problems, "the extension type 9 is assigned on a path that tested for "+f+" subtable types")
+	}
+	if len(problems) == 0 {
+		r.OK("exttype", key, w.Pos(fn.Pos()), "7 behind GSUB type tests, 9 behind GPOS type tests")
+	} else {
+		r.Fail("exttype", key, w.Pos(fn.Pos()), strings.Join(problems, "; "), nil)
+	}
+	r.Floor("exttype", 1)
 }
